@@ -33,6 +33,8 @@ func main() {
 		cmdVC(os.Args[2:])
 	case "check":
 		cmdCheck(os.Args[2:])
+	case "replay":
+		cmdReplay(os.Args[2:])
 	case "refgen":
 		p, err := loadAll()
 		if err != nil {
@@ -98,6 +100,10 @@ func (p *Program) generate(only string) []*Obligation {
 		fc := p.Contracts.Funcs[n]
 		if fc == nil {
 			if f.verifOnly {
+				continue
+			}
+			if f.fn.Pkg == p.Tool && f.fn.Name() == "main" {
+				// the generator's main ranges over a map: not under contract, observed by the bounded run only
 				continue
 			}
 			obls = append(obls, &Obligation{Name: n + "/contract/missing", Fn: n, Kind: "contract", Failed: true,
